@@ -6,6 +6,11 @@ U32 = 1 << 32
 CH = 65536
 
 
+def self_first(lines):
+    """first value added by an `addstride %s <start> ..` template line"""
+    return int(lines[0].split()[2])
+
+
 class G:
     def __init__(self, seed, tier="quick"):
         self.r = random.Random(seed)
@@ -152,6 +157,88 @@ class G:
         return keys
 
     # ---------------------------------------------------------------- suites
+    def hist_fixed_episodes(self):
+        """deterministic mutation cases: checked removals that MISS in chunks holding one / two values (every stored form); ranges that
+        start or end exactly at the bitmap's minimum / maximum; removals of the first / last / an inner value of runs at the point where
+        the run form stops being the smaller one; checked removals walking a bitmap chunk down through 4096"""
+        for form in ("plain", "opt", "viaflip"):
+            x = self.fresh("hf")
+            vs = [100, CH + 5, 2 * CH + 7, 2 * CH + 8, 9 * CH + 65535]
+            if form == "viaflip":
+                self.emit("new %s" % x)
+                for v in vs:
+                    self.emit("flip %s %d %d" % (x, v, v + 1))
+            else:
+                self.emit("of %s %s" % (x, " ".join(map(str, vs))))
+            if form == "opt":
+                self.emit("opt %s" % x)
+            for q in (101, 99, CH + 6, CH + 4, CH + 65535, 2 * CH + 9, 9 * CH, 9 * CH + 65534, 5 * CH + 5):
+                self.emit("crem %s %d" % (x, q))
+                self.emit("rem %s %d" % (x, q + 1 if q % 2 else q))
+                self.emit("card %s" % x)
+            self.emit("crem %s %d" % (x, CH + 5))
+            self.emit("crem %s %d" % (x, CH + 5))
+            self.emit("cadd %s %d" % (x, CH + 5))
+            self.emit("cadd %s %d" % (x, CH + 5))
+            self.emit("wf %s" % x)
+            self.count("hist:fixed-checked-miss")
+        for kind in ("A", "R", "B"):
+            for hi in (3 * CH + 500, 3 * CH + 65535, 0xFFFFFFFF):
+                x = self.fresh("hf")
+                self.emit("new %s" % x)
+                lo = hi - 70000
+                if kind == "A":
+                    self.emit("addstride %s %d 700 101" % (x, lo))
+                elif kind == "R":
+                    self.emit("addr %s %d %d" % (x, lo, lo + 30000)); self.emit("addr %s %d %d" % (x, hi - 9000, hi + 1)); self.emit("opt %s" % x)
+                else:
+                    self.emit("addstride %s %d 2 35001" % (x, lo))
+                for op, a, b in (("remr", hi, hi + 1), ("remr", hi, min(U32, hi + 70000)), ("flip", hi, hi + 1), ("addr", hi, hi + 1),
+                                 ("remr", lo, lo + 1), ("remr", max(0, lo - 70000), lo + 1), ("remr", lo - 1, lo), ("remr", hi + 1 if hi < U32 - 1 else hi, U32),
+                                 ("flip", lo - 5, lo + 1), ("remr", hi - 1, hi), ("remr", hi - 1, U32)):
+                    y = self.fresh("hf")
+                    self.emit("clone %s %s" % (y, x))
+                    self.emit("%s %s %d %d" % (op, y, a, b))
+                    self.emit("max %s" % y)
+                    self.emit("min %s" % y)
+                self.count("hist:fixed-range-at-extremes")
+        # run chunks on the border where the array form becomes the smaller one (values == 2*runs + 2 ...): drop first / last / inner value
+        for nruns, extra in ((1, 2), (1, 3), (2, 2), (3, 2), (499, 2), (5, 1)):
+            for which in ("first", "last", "inner", "single"):
+                x = self.fresh("hf")
+                self.emit("new %s" % x)
+                for j in range(nruns - 1):
+                    self.emit("addr %s %d %d" % (x, 7 * CH + 100 * j, 7 * CH + 100 * j + 2))
+                b0 = 7 * CH + 100 * (nruns - 1)
+                self.emit("addr %s %d %d" % (x, b0, b0 + 2 + extra))
+                self.emit("opt %s" % x)
+                v = {"first": b0, "last": b0 + 1 + extra, "inner": b0 + 1, "single": 7 * CH}[which]
+                self.emit("rem %s %d" % (x, v))
+                self.emit("wf %s" % x)
+                self.emit("crem %s %d" % (x, v + 1 if which != "last" else v - 1))
+                self.emit("wf %s" % x)
+                self.emit("size %s" % x)
+            self.count("hist:fixed-run-border-remove")
+        # checked removals only: a bitmap chunk walked down through 4096, a run chunk thinned out
+        x = self.fresh("hf")
+        self.emit("new %s" % x)
+        self.emit("addstride %s %d 3 4200" % (x, 4 * CH))
+        for j in range(210):
+            self.emit("crem %s %d" % (x, 4 * CH + 3 * j * 20))
+            if 98 <= j <= 108 or j == 209:
+                self.emit("wf %s" % x)
+                self.emit("size %s" % x)
+        x = self.fresh("hf")
+        self.emit("new %s" % x)
+        self.emit("addr %s %d %d" % (x, 6 * CH + 1000, 6 * CH + 4000))
+        self.emit("opt %s" % x)
+        for j in range(1500):
+            self.emit("crem %s %d" % (x, 6 * CH + 1001 + 2 * j))
+            if j % 250 == 249:
+                self.emit("wf %s" % x)
+                self.emit("size %s" % x)
+        self.count("hist:fixed-checked-only-walk")
+
     def suite_hist(self, nhist, steps):
         """C02: mutation histories, digest after every step"""
         r = self.r
@@ -176,6 +263,7 @@ class G:
                     self.emit("wf %s" % y)
             self.emit("dig %s" % x)
             self.count("hist:run-range-episode")
+        self.hist_fixed_episodes()
         for _ in range(nhist):
             x = self.fresh()
             if r.random() < 0.5:
@@ -427,6 +515,73 @@ class G:
         self.build(b, kb)
         return a, b, set(ka) | set(kb)
 
+    def alg_fixed_halves_and_combs(self):
+        """deterministic algebra cases: (a) two DISJOINT chunks of 32767 / 32768 / 32769 values each (evens-odds, lower-upper half, a
+        scattered half and its complement), as built, run-optimised and mixed — every form and every shortcut; (b) 'combs' of ~1500
+        intervals that meet another comb only at end points (results made of thousands of isolated values), a long interval minus a
+        comb that leaves single values, and their sizes"""
+        k = 11 * CH
+        shapes = []
+        for name, a_lines, b_lines in (
+                ("even-odd", ["addstride %%s %d 2 32768" % k], ["addstride %%s %d 2 32768" % (k + 1)]),
+                ("low-high", ["addstride %%s %d 1 32768" % k], ["addstride %%s %d 1 32768" % (k + 32768)]),
+                ("scatter", ["addstride %%s %d 4 16384" % k, "addstride %%s %d 4 16384" % (k + 1)],
+                            ["addstride %%s %d 4 16384" % (k + 2), "addstride %%s %d 4 16384" % (k + 3)])):
+            for da, db in ((0, 0), (-1, 0), (0, 1), (1, 1)):
+                a, b = self.fresh("hv"), self.fresh("hv")
+                for nm, lines, d in ((a, a_lines, da), (b, b_lines, db)):
+                    self.emit("new %s" % nm)
+                    for l in lines:
+                        self.emit(l % nm)
+                    if d == -1:
+                        self.emit("rem %s %d" % (nm, self_first(lines)))
+                if da == 1:
+                    self.emit("add %s %d" % (a, k + 65535 if name != "low-high" else k + 40000))   # one value of b's territory
+                for opt in ((), (a,), (a, b)):
+                    for o in opt[-1:]:
+                        self.emit("opt %s" % o)
+                    for q in ("isect", "andcard", "orcard"):
+                        self.emit("%s %s %s" % (q, a, b))
+                        self.emit("%s %s %s" % (q, b, a))
+                    z = self.fresh("hv")
+                    self.emit("and %s %s %s" % (z, a, b))
+                    self.emit("xor %s %s %s" % (self.fresh("hv"), a, b))
+                    z = self.fresh("hv")
+                    self.emit("clone %s %s" % (z, a))
+                    self.emit("iand %s %s" % (z, b))
+                self.count("alg:fixed-halves:" + name)
+        # (b)
+        base = 13 * CH
+        a, b, c, d = (self.fresh("cb") for _ in range(4))
+        for nm, off in ((a, 0), (b, 20)):
+            self.emit("new %s" % nm)
+            for j in range(21):
+                self.emit("addstride %s %d 40 1500" % (nm, base + off + j))
+            self.emit("opt %s" % nm)
+        self.emit("new %s" % c)
+        self.emit("addr %s %d %d" % (c, base, base + 65536))
+        self.emit("new %s" % d)
+        for j in range(1, 31):
+            self.emit("addstride %s %d 31 2055" % (d, base + j))
+        self.emit("opt %s" % d)
+        for x, y in ((a, b), (b, a)):
+            z = self.fresh("cb")
+            self.emit("and %s %s %s" % (z, x, y)); self.emit("wf %s" % z); self.emit("size %s" % z)
+            z = self.fresh("cb")
+            self.emit("clone %s %s" % (z, x)); self.emit("iand %s %s" % (z, y)); self.emit("wf %s" % z); self.emit("size %s" % z)
+            self.emit("fastand %s %s %s" % (self.fresh("cb"), x, y))
+            z = self.fresh("cb")
+            self.emit("xor %s %s %s" % (z, x, y)); self.emit("wf %s" % z); self.emit("size %s" % z)
+        for form in ("andnot", "iandnot"):
+            z = self.fresh("cb")
+            if form == "andnot":
+                self.emit("andnot %s %s %s" % (z, c, d))
+            else:
+                self.emit("clone %s %s" % (z, c)); self.emit("iandnot %s %s" % (z, d))
+            self.emit("wf %s" % z); self.emit("size %s" % z)
+            self.emit("opt %s" % z); self.emit("size %s" % z)
+        self.count("alg:fixed-combs")
+
     def suite_alg(self, npairs):
         """C01: every binary op, both forms, shortcuts, self-ops; operands unchanged"""
         r = self.r
@@ -446,6 +601,7 @@ class G:
             self.emit("isect %s %s" % (x, e2))
             self.emit("isect %s %s" % (e2, x))
             self.emit("isect %s %s" % (e0, e1))
+        self.alg_fixed_halves_and_combs()
         # operands that TOUCH: the smallest value of one chunk is the largest value of the other's; the receiver grown by single
         # insertions (its slice has spare capacity), a clone of it (exact capacity) and an edited one
         # in-place Xor whose merge first meets an argument-only key BEFORE a receiver key (or a cancelling pair) and LATER, at a higher
